@@ -88,6 +88,26 @@ CLAIMED = {
         "note": _NOTE + " The real hash functions run (no coarse-hash stub), therefore payloads are bounded to [0,1] (quick) / [-2,2] (thorough).",
         "technique": "CrossHair symbolic execution + z3 of the algebraic laws on the real Value classes",
     },
+    "C03": {
+        "design_ref": "DESIGN.md section 5 C03",
+        "text": ("Runtime-API half. For every type expression of the depth-1 vocabulary (depth 2 in thorough) and 22 object kinds, "
+                 "the solver shows that Value.can_assign(KnownValue(o)) - what runtime.is_assignable evaluates - equals structural "
+                 "membership for all int payloads, Literal constants, Annotated thresholds and TypedDict flags. E3 re-validates at "
+                 "every run that the hand-built Values equal type_from_runtime of the typing spelling and that "
+                 "runtime.is_assignable agrees on concrete samples."),
+        "note": _NOTE + " Coarse-hash stub (eq-consistent) for KnownValue and annotated_types checks; the checker's verdict on `x: T = literal` (visitor) is outside the claim.",
+        "technique": "CrossHair symbolic execution + z3 against an 80-line structural membership model",
+    },
+    "C04": {
+        "design_ref": "DESIGN.md section 5 C04",
+        "text": ("H04a: reflexivity, Never/top/Any laws, union laws and the exclude-Any monotonicity for every class hierarchy: leaves "
+                 "are stub atoms under a symbolic preorder (6 booleans, constructive encoding), everything above the leaves is the real "
+                 "can_assign code; the verdict is also compared with a reference acceptance. H04b: accepts(A,B) and o in B => o in A on "
+                 "pairs of the depth-1 vocabulary with symbolic payloads, thresholds, TypedDict required/readonly flags and a "
+                 "symbolic witness object."),
+        "note": _NOTE + " Protocols, callables, TypeVars and the documented leniencies (bare generics, fixed tuple accepting a variadic tuple) are outside the claim.",
+        "technique": "CrossHair symbolic execution + z3; symbolic preorder as environment",
+    },
 }
 
 _PENDING = "harness not landed yet in this commit (build in progress; see DESIGN.md section 9)"
